@@ -221,7 +221,7 @@ func runMS(s MSScript) (nontrivial bool, key string, f *vt.Finding) {
 }
 
 func runMSOn(c *vt.C, s MSScript, key string) (nontrivial bool, k string, f *vt.Finding) {
-	c.HangGuard(20*time.Second, s, "hang-no-progress/"+s.Signal+"/"+s.Sizer, func() {
+	c.HangGuard(120*time.Second, s, "hang-no-progress/"+s.Signal+"/"+s.Sizer, func() {
 		nontrivial, f = runMSInner(c, &s)
 	})
 	return nontrivial, key, f
